@@ -1376,6 +1376,13 @@ class FunctionAnalysis:
         # out= keyword writes its argument, whatever the callee
         if "out" in kwv and kind in ("np", "external", "method", "unknown"):
             self.write(call, "out= argument", kwv["out"].o, call)
+        # scipy.linalg `overwrite_a=True` / `overwrite_b=True` (and np `copy=False` on asarray-like calls are reads, not writes):
+        # LAPACK may use the operand's memory as workspace, i.e. the call writes its positional argument
+        if kind in ("np", "external", "method", "unknown"):
+            for kwn, pos in (("overwrite_a", 0), ("overwrite_b", 1), ("overwrite_x", 0), ("overwrite_ab", 0), ("overwrite_v", 0)):
+                kw_ = next((k for k in call.keywords if k.arg == kwn), None)
+                if kw_ is not None and not (isinstance(kw_.value, ast.Constant) and kw_.value.value in (False, None, 0)) and len(argv) > pos:
+                    self.write(call, f"{kwn}= lets the library overwrite the operand", argv[pos].o, call)
         if kind == "funcs":
             fs, recv, _ = payload
             self.resolved += 1
